@@ -211,13 +211,23 @@ def run(chk, repo):
         # an endless generator expression whose element is the attribute load: evaluated at every step as well
         ci = repo.find(LS, "ControlStream.__init__")
         gens = [n for n in ast.walk(ci) if isinstance(n, ast.GeneratorExp)]
-        chk.require(len(gens) == 1, "ControlStream.__init__: neither data_generator nor a generator expression found")
-        ge = gens[0]
-        src_ = unparse(ge.generators[0].iter)
-        for a_ in ast.walk(ci):
-            if isinstance(a_, ast.Assign) and len(a_.targets) == 1 and unparse(a_.targets[0]) == src_:
-                src_ = unparse(a_.value)
-        endless = src_ in ("it.repeat(None)", "it.count()", "it.repeat(0)", "it.cycle([None])") \
-            and len(ge.generators) == 1 and not ge.generators[0].ifs
-        chk.decide(unparse(ge.elt) == "self.value" and endless, "C16.control", W("ControlStream.__init__"), short(ge),
-                   why="the attribute must be read at every step, endlessly", node=ge)
+        sent = [n for n in ast.walk(ci) if isinstance(n, ast.Call) and isinstance(n.func, ast.Name) and n.func.id == "iter"
+                and len(n.args) == 2 and not n.keywords]
+        if not gens and sent:
+            # iter(callable, sentinel) ends for good the first time the callable returns the sentinel
+            chk.bad("C16.control", W("ControlStream.__init__"), short(sent[0]),
+                    "iter(f, sentinel) stops as soon as f() == sentinel: once %s is the current value the stream ends "
+                    "(a ControlStream yields, at every sample and for ever, the value most recently assigned - whatever "
+                    "that value is)" % unparse(sent[0].args[1]), node=sent[0])
+            gens = None
+        if gens is not None:
+            chk.require(len(gens) == 1, "ControlStream.__init__: neither data_generator nor a generator expression found")
+            ge = gens[0]
+            src_ = unparse(ge.generators[0].iter)
+            for a_ in ast.walk(ci):
+                if isinstance(a_, ast.Assign) and len(a_.targets) == 1 and unparse(a_.targets[0]) == src_:
+                    src_ = unparse(a_.value)
+            endless = src_ in ("it.repeat(None)", "it.count()", "it.repeat(0)", "it.cycle([None])") \
+                and len(ge.generators) == 1 and not ge.generators[0].ifs
+            chk.decide(unparse(ge.elt) == "self.value" and endless, "C16.control", W("ControlStream.__init__"), short(ge),
+                       why="the attribute must be read at every step, endlessly", node=ge)
